@@ -16,7 +16,13 @@ type regExpParser struct {
 	offset    int
 	chr       rune
 	invalid   bool
+	nesting   int // depth of scanGroup
 }
+
+// maxGroupNesting bounds the recursion of scanGroup (one Go frame per "("):
+// Go's regexp package rejects more than 1000 levels anyway ("expression nests
+// too deeply"), but it only sees the pattern after this transformation.
+const maxGroupNesting = 1000
 
 // TransformRegExp transforms a JavaScript pattern into  a Go "regexp" pattern.
 //
@@ -84,6 +90,18 @@ func (p *regExpParser) scan() {
 
 // (...)
 func (p *regExpParser) scanGroup() {
+	p.nesting++
+	defer func() { p.nesting-- }()
+	if p.nesting > maxGroupNesting {
+		// Millions of "(" (a 130-byte script builds them by doubling a string)
+		// would exhaust the Go stack: reject the pattern and skip to its end so
+		// that every enclosing group unwinds.
+		p.error(-1, "Invalid regular expression: nesting too deep")
+		p.invalid = true
+		p.offset = p.length
+		p.read()
+		return
+	}
 	str := p.str[p.chrOffset:]
 	if len(str) > 0 && str[0] == '?' {
 		// Only (?: (?= and (?! are groups in JavaScript, everything else
